@@ -245,6 +245,24 @@ pub fn syntax(cex: &Value) -> Result<String, String> {
         }
       }
     }
+    // the serde route accepts exactly what parse accepts and yields the same value (texts without '%': the parser's escape
+    // handling is a recorded deviation)
+    for text in [
+      "did:example:123", "did:example:123/path", "did:example:123?q", "did:example:123#f", "did:example:123/path?q#f", "did:example:123 ", " did:example:123",
+      "did:example:123\n", "did:Example:123", "did:example:", "did::123", "did:example:a:b", "did:example:a:", "example:123", "did:example:12 34", "did:iota:0x1234",
+    ] {
+      let json = serde_json::to_string(text).unwrap();
+      let by_parse = CoreDID::parse(text).ok();
+      let by_serde = serde_json::from_str::<CoreDID>(&json).ok();
+      if by_parse != by_serde {
+        log.push(format!("[serde] CoreDID: parse({text:?}) = {:?} but deserialisation gives {:?}", by_parse.map(|d| d.to_string()), by_serde.map(|d| d.to_string())));
+      }
+      let up = DIDUrl::parse(text).ok();
+      let us = serde_json::from_str::<DIDUrl>(&json).ok();
+      if up != us {
+        log.push(format!("[serde] DIDUrl: parse({text:?}) = {:?} but deserialisation gives {:?}", up.map(|d| d.to_string()), us.map(|d| d.to_string())));
+      }
+    }
     log
   });
   match r {
@@ -337,5 +355,53 @@ pub fn segment(cex: &Value) -> Result<String, String> {
     Err(msg) => Ok(format!("setters panicked on {text:?}: {msg}")),
     Ok(notes) if !notes.is_empty() => Ok(notes.join("; ")),
     Ok(_) => Err(format!("{text:?}: setters agree with the ABNF")),
+  }
+}
+
+
+/// Confirmation of a validator-kernel candidate (C10): `CoreDID::valid_method_id` / `valid_method_name` on the given text against
+/// the W3C DID ABNF written out here (method-specific-id = *( *idchar ":" ) 1*idchar, idchar = ALPHA / DIGIT / "." / "-" / "_" /
+/// pct-encoded; method-name = 1*( %x61-7A / DIGIT )).
+pub fn validator(cex: &Value) -> Result<String, String> {
+  let text = cex.get("text").and_then(Value::as_str).unwrap_or("").to_owned();
+  let which = cex.get("which").and_then(Value::as_str).unwrap_or("id").to_owned();
+  fn ref_id(s: &[u8]) -> bool {
+    if s.is_empty() || *s.last().unwrap() == b':' {
+      return false;
+    }
+    let mut i = 0;
+    while i < s.len() {
+      let c = s[i];
+      if c == b'%' {
+        if i + 2 >= s.len() + 0 && !(i + 2 < s.len()) {
+          return false;
+        }
+        if !(s[i + 1].is_ascii_hexdigit() && s[i + 2].is_ascii_hexdigit()) {
+          return false;
+        }
+        i += 3;
+      } else if c.is_ascii_alphanumeric() || matches!(c, b'.' | b'-' | b'_' | b':') {
+        i += 1;
+      } else {
+        return false;
+      }
+    }
+    true
+  }
+  fn ref_name(s: &[u8]) -> bool {
+    !s.is_empty() && s.iter().all(|c| c.is_ascii_lowercase() || c.is_ascii_digit())
+  }
+  let t2 = text.clone();
+  let w2 = which.clone();
+  match no_panic(move || if w2 == "name" { CoreDID::valid_method_name(&t2).is_ok() } else { CoreDID::valid_method_id(&t2).is_ok() }) {
+    Err(msg) => Ok(format!("validator panicked on {text:?}: {msg}")),
+    Ok(got) => {
+      let want = if which == "name" { ref_name(text.as_bytes()) } else { ref_id(text.as_bytes()) };
+      if got != want {
+        Ok(format!("valid_method_{which}({text:?}) = {got}, the ABNF says {want}"))
+      } else {
+        Err(format!("valid_method_{which}({text:?}) = {got} agrees with the ABNF"))
+      }
+    }
   }
 }
